@@ -2144,19 +2144,50 @@ Theorem import_print_reapply_roundtrip cfg sym antisym e :
 Proof. intros Hw Hc. exists (forget cfg e). split; [now apply import_print_roundtrip|].
   split; [now apply reapply_forget|apply print_forget]. Qed.
 
-(* the symbolic denominator: a SymmetricTensor named D with bra-ket
-   antisymmetry, as built by use_symbolic_denominators *)
+(* the kind clause for the symbolic denominator: under every configuration in
+   which its name is not also an amplitude name, the importer gives it the
+   class SymmetricTensor that use_symbolic_denominators builds; the bra-ket
+   antisymmetry comes back through antisym_tensors *)
+Lemma kind_of_name_denominator cfg :
+  is_adc_amplitude cfg (n_sym_orb_denom cfg) = false ->
+  is_t_amplitude cfg (n_sym_orb_denom cfg) = false ->
+  kind_of_name cfg (n_sym_orb_denom cfg) = KSym.
+Proof. intros H1 H2. unfold kind_of_name. rewrite H1, H2. cbn [orb].
+  rewrite str_eqb_refl. now destruct (str_eqb _ (n_coulomb cfg)). Qed.
+
+Definition denom_term (cfg : names) (neg : bool) (up lo : list lidx) (e : Z) : term :=
+  Term neg (BObjs [OPow (BTens KSym (n_sym_orb_denom cfg) (-1) up lo) e]) None.
+Theorem symbolic_denominator_roundtrip cfg sym neg up lo e :
+  is_adc_amplitude cfg (n_sym_orb_denom cfg) = false ->
+  is_t_amplitude cfg (n_sym_orb_denom cfg) = false ->
+  wf_tname (n_sym_orb_denom cfg) = true -> smem (n_sym_orb_denom cfg) sym = false ->
+  forallb wf_idx up = true -> forallb wf_idx lo = true ->
+  exists e', import_model cfg false (print_model [denom_term cfg neg up lo e]) = Some e' /\
+             reapply sym [n_sym_orb_denom cfg] e' = [denom_term cfg neg up lo e] /\
+             expr_kinds (reapply sym [n_sym_orb_denom cfg] e') = [(n_sym_orb_denom cfg, KSym, (-1)%Z)] /\
+             print_model e' = print_model [denom_term cfg neg up lo e].
+Proof. intros H1 H2 Hn Hs Hu Hl.
+  assert (Hw : wf_expr [denom_term cfg neg up lo e] = true).
+  { unfold wf_expr, denom_term. simpl. now rewrite Hn, Hu, Hl. }
+  assert (Hc : consistent cfg sym [n_sym_orb_denom cfg] [denom_term cfg neg up lo e] = true).
+  { unfold consistent, denom_term. cbn [forallb cons_term cons_body cons_obj cons_base].
+    rewrite (kind_of_name_denominator cfg H1 H2).
+    unfold bks_of_name. rewrite Hs. unfold smem. cbn [existsb]. rewrite str_eqb_refl. reflexivity. }
+  destruct (import_print_reapply_roundtrip cfg sym [n_sym_orb_denom cfg] _ Hw Hc) as [e' [A [B C]]].
+  exists e'. split; [exact A|]. split; [exact B|]. split; [now rewrite B|exact C]. Qed.
+
+(* D^{i}_{a}, SymmetricTensor with bra-ket antisymmetry, default names: the
+   input on which the kind clause used to fail *)
 Definition D_witness : expr :=
   [Term false (BObjs [OPow (BTens KSym (L "D") (-1) [LIdx "i" [] NoSpin] [LIdx "a" [] NoSpin]) 1]) None].
-Theorem import_kind_D_refuted :
-  wf_expr D_witness = true /\
+Theorem import_kind_D_restored :
+  wf_expr D_witness = true /\ consistent default_names [] [L "D"] D_witness = true /\
   exists e', import_model default_names false (print_model D_witness) = Some e' /\
-             print_model e' = print_model D_witness /\
-             expr_kinds (reapply [] [L "D"] e') = [(L "D", KAnti, (-1)%Z)] /\
-             expr_kinds D_witness = [(L "D", KSym, (-1)%Z)] /\
-             reapply [] [L "D"] e' <> D_witness.
-Proof. split; [reflexivity|]. eexists. split; [vm_compute; reflexivity|].
-  split; [reflexivity|]. split; [reflexivity|]. split; [reflexivity|]. discriminate. Qed.
+             reapply [] [L "D"] e' = D_witness /\
+             expr_kinds (reapply [] [L "D"] e') = [(L "D", KSym, (-1)%Z)] /\
+             print_model e' = print_model D_witness.
+Proof. split; [reflexivity|]. split; [reflexivity|]. eexists. split; [vm_compute; reflexivity|].
+  repeat split; reflexivity. Qed.
 
 (* the hypotheses of the round-trip theorem are satisfiable on a non-trivial
    expression: - \frac{3 \sqrt{2} {t1^{a_{\alpha}b12}_{ij}} {V^{ij}_{a_{\alpha}b12}}^{2} \delta_{i j}}{{e_{a}} - 2 {e_{i}}}
